@@ -93,6 +93,29 @@ pub fn c05_q_serial_frame_after_any_frame() {
     kani::cover!(matches!(last, Ok(Some(_))));
 }
 
+/// C05 on the bit-serial path after a timeout: k bits of an abandoned frame, clear(), then a frame
+/// shifted in bit by bit is accepted exactly when valid (through the Keyboard as well).
+#[kani::proof]
+#[kani::unwind(12)]
+pub fn c05_q_serial_frame_after_clear() {
+    let k: u8 = kani::any();
+    kani::assume(k <= 10);
+    let mut d = partial(k);
+    d.clear();
+    let mut w = 0u16;
+    let mut last = Ok(None);
+    let mut n = 0u8;
+    while n < 11 {
+        let b: bool = kani::any();
+        w |= (b as u16) << n;
+        last = d.add_bit(b);
+        n += 1;
+    }
+    crate::show!("C05 serial after clear: k={} frame={:#06x} got={:?} want={:?}", k, w, last, ref_frame(w).map(Some));
+    assert!(last == ref_frame(w).map(Some), "C05: frame shifted in after clear() is not accepted/rejected by the start/stop/parity rule");
+    kani::cover!(matches!(last, Ok(Some(_))) && k == 10);
+}
+
 /// C05 thorough: two-bit corruptions are accepted only if they leave start/stop alone and keep
 /// parity odd, and then deliver exactly the corrupted data bits (never some third byte).
 #[kani::proof]
